@@ -67,14 +67,26 @@ def run_extractor(name, libdir, inc, out_lean):
     return True, hashlib.sha256(r.stdout.encode()).hexdigest()[:16]
 
 
-EXTRACTORS = [("extract_consts", TPM2_INC, "Consts"), ("extract_blob", TPM2_INC, "Blob"), ("extract_cmds", TPM2_INC, "Cmds")]
+def tpm12_flags():
+    """flags the repo's own build uses for tpm12/tpm_process.c (the ordinal table depends on them); falls back to TPM12_INC"""
+    try:
+        for srcfile, flags in buildmod.compile_commands(REPO):
+            if srcfile == "tpm12/tpm_process.c":
+                return [f for f in flags if not f.startswith("-W")]
+    except Exception:
+        pass
+    return TPM12_INC
+
+
+EXTRACTORS = [("extract_consts", TPM2_INC, "Consts"), ("extract_blob", TPM2_INC, "Blob"), ("extract_cmds", TPM2_INC, "Cmds"),
+              ("extract_tpm12", tpm12_flags, "Tpm12")]
 
 
 def gen_all(libdir):
     """TRANSLATOR: regenerate every Gen/*.lean from the current tree."""
     hashes = {}
     for name, inc, out in EXTRACTORS:
-        ok, msg = run_extractor(name, libdir, inc, out)
+        ok, msg = run_extractor(name, libdir, inc() if callable(inc) else inc, out)
         if not ok:
             raise CheckError("broken tie (translator): " + msg)
         hashes[out] = msg
